@@ -1,4 +1,4 @@
-\* X01 exhaustive: per-instant aggregates of the iteration window (ghost): FieldwiseSnapshot
+\* X01 exhaustive (<= 2 writes per iteration window): per-instant aggregates (ghost): FieldwiseSnapshot
 SPECIFICATION Spec
 CONSTANTS
   ConnKeys = {"k1"}
@@ -20,4 +20,5 @@ CONSTANTS
 INVARIANTS TypeOK FileNeverHalfWritten OverallStatusFunction CountsAreAdds MessageBounded ExtensionTopN
 PROPERTIES FileStaysPresent QuiescentSnapshot CountsMonotoneBetweenClears ClearEmptiesBoth PublishedCountsMonotone
   EventCarriesPublishedStatus EventOnlyWhenDue EventWhenDue ClearOnlyWhenDue ClearWhenDue FieldwiseSnapshot
+CONSTRAINT McFewInstants
 CHECK_DEADLOCK TRUE
